@@ -233,6 +233,7 @@ class Env:
         self.objects = set()      # identifiers that are option objects
         self.config_vars = set()  # identifiers bound to vscode.workspace.getConfiguration(..)
         self.elem = None          # loop variable
+        self.functions = {}       # module-level pure helpers: name -> JS source
 
     def field(self, name, ty=None, optional=True):
         for f in self.fields:
@@ -294,6 +295,9 @@ def parse_cond(e, env):
         return c
     if e.startswith("!") and not e.startswith("!="):
         return ("not", parse_cond(e[1:], env))
+    m = re.match(r"(.+?)\s*===\s*(['\"][^'\"]*['\"])$", e)
+    if m and env.ref(m.group(1)) and env.field(env.ref(m.group(1)))["ty"][0] in ("str", "enum"):
+        return ("isLit", env.index(env.ref(m.group(1))), str_lit(m.group(2)))
     m = re.match(r"(.+?)\s*===\s*false$", e)
     if m and env.ref(m.group(1)):
         return ("isFalse", env.index(env.ref(m.group(1))))
@@ -314,6 +318,12 @@ def parse_tok(e, env):
     s = str_lit(e)
     if s is not None:
         return ("lit", s)
+    m = re.match(r"^`--([A-Za-z][\w-]*)=\$\{([^{}]+)\}`$", e)
+    if m:
+        inner = parse_tok(m.group(2), env)
+        if inner[0] not in ("val", "elem", "joined"):
+            raise WrapperError(f"{env.where}: value of {e!r} not understood")
+        return ("attach", m.group(1), inner)
     if e.startswith("..."):
         f = env.ref(e[3:])
         if f and env.field(f)["ty"][0] == "strList":
@@ -391,9 +401,16 @@ def parse_block(body, env, cond, helpers, steps, depth=0):
                 i = b1 + 1
                 break
             continue
-        m = re.match(r"for\s*\(\s*const\s+(\w+)\s+of\s+([^)]+)\)\s*\{", rest)
+        m = re.match(r"for\s*\(\s*const\s+(\w+)\s+of\s+((?:[^()]|\([^()]*\))+)\)\s*\{", rest)
         if m:
-            f = env.ref(m.group(2))
+            norm = None
+            src_expr = m.group(2).strip()
+            mm = re.match(r"(.+?)\.flatMap\(\s*(\w+)\s*\)$", src_expr)
+            if mm:
+                src_expr, norm = mm.group(1), mm.group(2)
+                if norm not in env.functions:
+                    raise WrapperError(f"{env.where}: loop over {m.group(2)!r}: unknown function {norm}")
+            f = env.ref(src_expr)
             if not f or env.field(f)["ty"][0] != "strList":
                 raise WrapperError(f"{env.where}: loop over {m.group(2)!r} not understood")
             b0 = i + m.end() - 1
@@ -407,7 +424,8 @@ def parse_block(body, env, cond, helpers, steps, depth=0):
             for st in inner:
                 if st[0] != "push" or st[1] != ("always",):
                     raise WrapperError(f"{env.where}: only unconditional pushes are supported inside a loop")
-                steps.append(("each", cond, env.index(f), st[2]))
+                steps.append(("each", cond, env.index(f), st[2]) if norm is None
+                             else ("eachNorm", cond, env.index(f), st[2], norm))
             i = b1 + 1
             continue
         # single statement up to `;`
@@ -480,13 +498,14 @@ def find_builder_start(body):
     return None
 
 
-def extract_builder(wrapper, name, psrc, body, aliases, helpers):
+def extract_builder(wrapper, name, psrc, body, aliases, helpers, functions=None):
     where = f"{wrapper}.{name}"
     start = find_builder_start(body)
     if not start:
         return None
     arr, after, inline = start
     env = Env(where)
+    env.functions = functions or {}
     for pname, popt, ptype in parse_params(psrc, aliases, where):
         kind = resolve_param_type(ptype, aliases, f"{where}({pname})")
         if kind[0] == "scalar":
@@ -508,7 +527,7 @@ def extract_builder(wrapper, name, psrc, body, aliases, helpers):
     used = set()
 
     def walk_c(c):
-        if c[0] in ("truthy", "isFalse", "defined", "nonEmpty"):
+        if c[0] in ("truthy", "isFalse", "defined", "nonEmpty", "isLit"):
             used.add(c[1])
         elif c[0] in ("not",):
             walk_c(c[1])
@@ -516,10 +535,12 @@ def extract_builder(wrapper, name, psrc, body, aliases, helpers):
             walk_c(c[1]); walk_c(c[2])
     for st in steps:
         walk_c(st[1])
-        toks = st[3] if st[0] == "each" else st[2]
-        if st[0] == "each":
+        toks = st[3] if st[0] in ("each", "eachNorm") else st[2]
+        if st[0] in ("each", "eachNorm"):
             used.add(st[2])
         for t in toks:
+            if t[0] == "attach":
+                t = t[2]
             if t[0] in ("val", "joined", "spread", "orLit"):
                 used.add(t[1])
     # keep only the fields the builder reads (an options type may have more members), re-index
@@ -529,6 +550,8 @@ def extract_builder(wrapper, name, psrc, body, aliases, helpers):
     def map_c(c):
         if c[0] in ("truthy", "isFalse", "defined", "nonEmpty"):
             return (c[0], remap[c[1]])
+        if c[0] == "isLit":
+            return ("isLit", remap[c[1]], c[2])
         if c[0] == "not":
             return ("not", map_c(c[1]))
         if c[0] in ("and", "or"):
@@ -540,13 +563,17 @@ def extract_builder(wrapper, name, psrc, body, aliases, helpers):
             return (t[0], remap[t[1]])
         if t[0] in ("joined", "orLit"):
             return (t[0], remap[t[1]], t[2])
+        if t[0] == "attach":
+            return ("attach", t[1], map_t(t[2]))
         return t
     new_steps = []
     for st in steps:
         if st[0] == "push":
             new_steps.append(("push", map_c(st[1]), [map_t(t) for t in st[2]]))
-        else:
+        elif st[0] == "each":
             new_steps.append(("each", map_c(st[1]), remap[st[2]], [map_t(t) for t in st[3]]))
+        else:
+            new_steps.append(("eachNorm", map_c(st[1]), remap[st[2]], [map_t(t) for t in st[3]], st[4]))
     unused = [env.fields[i]["name"] for i in range(len(env.fields)) if i not in used]
     return {"wrapper": wrapper, "name": name, "sub": str_lit(first[0]),
             "params": [pn for pn, _, _ in parse_params(psrc, aliases, where)],
@@ -595,12 +622,30 @@ def reps_for(wrapper, field, hints):
             return [[hs[0]], [hs[0], hs[1]], [], list(hs)], []
         x, y = {"paths": ("src", "lib/a.rs"), "includes": ("*.rs", "src/**"),
                 "excludes": ("target/**", "*.lock")}.get(name, ("x", "y"))
-        return [[x], [x, y], []], [["-x"], ["a,b"]]
+        return [[x], [x, y], []], [["-x"], ["a,b"], ["*.{ts,tsx}"]]
     raise WrapperError(f"no representatives for {ty}")
 
 
 # ---------------------------------------------------------------------------------------------------
 # JavaScript rendering of the real method bodies (for node)
+
+def module_functions(src):
+    """`export function name(a: T, ..): R { .. }` at module level -> name -> JS source (types stripped)"""
+    out = {}
+    for m in re.finditer(r"(?m)^(?:export\s+)?function\s+(\w+)\s*\(", src):
+        p0 = m.end() - 1
+        p1 = match_close(src, p0, "(", ")")
+        b0 = src.index("{", p1)
+        if not re.match(r"\s*(?::\s*[\w\[\]<>| ]+)?\s*$", src[p1 + 1:b0]):
+            continue
+        b1 = match_close(src, b0, "{", "}")
+        body = src[b0:b1 + 1]
+        body = re.sub(r"\b(const|let)\s+(\w+)\s*:\s*[\w\[\]<>| ]+?\s*=", r"\1 \2 =", body)
+        if re.search(r"\bas\s+\w|<\w+>\(|:\s*(?:string|number|boolean)\b", body):
+            continue                      # still typed: cannot be run under node as is; only an error if used
+        out[m.group(1)] = f"function {m.group(1)}({strip_types_params(src[p0 + 1:p1])}) {body}"
+    return out
+
 
 def strip_types_params(psrc):
     return ", ".join(re.match(r"(\w+)", p).group(1) for p in split_top(psrc, ",") if p)
@@ -639,6 +684,8 @@ def render_js(raw):
     for wrapper, items in raw.items():
         L.append(f"// ---- {wrapper}")
         L.append("{")
+        for fsrc in items.get("functions", {}).values():
+            L.append("  " + fsrc)
         L.append("  const self = {")
         for hname, (hp, hb) in items["helpers"].items():
             L.append(f"    {hname}({strip_types_params(hp)}) {{{hb}}},")
@@ -700,6 +747,8 @@ def lean_cond(c):
         return ".always"
     if c[0] in ("truthy", "isFalse", "defined", "nonEmpty"):
         return f"(.{c[0]} {c[1]})"
+    if c[0] == "isLit":
+        return f"(.isLit {c[1]} {lean_bytes(c[2])})"
     if c[0] == "not":
         return f"(.not {lean_cond(c[1])})"
     return f"(.{c[0]} {lean_cond(c[1])} {lean_cond(c[2])})"
@@ -714,6 +763,8 @@ def lean_tok(t):
         return f".joined {t[1]} {ord(t[2])}"
     if t[0] == "orLit":
         return f".orLit {t[1]} {lean_bytes(t[2])}"
+    if t[0] == "attach":
+        return f".attach {lean_bytes(t[1])} ({lean_tok(t[2])})"
     return ".elem"
 
 
@@ -742,9 +793,13 @@ def render(builders):
         for st in b["steps"]:
             if st[0] == "push":
                 sl.append(f"      .push {lean_cond(st[1])} {lean_list(st[2], lean_tok)}")
-            else:
+            elif st[0] == "each":
                 sl.append(f"      .each {lean_cond(st[1])} {st[2]} {lean_list(st[3], lean_tok)}")
-        L.append(",\n".join(sl) + " ] }")
+            else:
+                sl.append(f"      .eachNorm {lean_cond(st[1])} {st[2]} {lean_list(st[3], lean_tok)}")
+        L.append(",\n".join(sl) + " ],")
+        norm = b.get("norm") or []
+        L.append("    norm := " + lean_list(norm, lambda kv: f"({lean_bytes(kv[0])}, {lean_list(kv[1], lean_bytes)})") + " }")
         L.append("")
     L.append("def builders : List Builder :=\n  [ " + ",\n    ".join(lean_ident(f"{b['wrapper']}_{b['name']}") for b in builders) + " ]")
     L.append("\nend Gen.Wrappers\n")
@@ -752,6 +807,38 @@ def render(builders):
 
 
 # ---------------------------------------------------------------------------------------------------
+
+def norm_table(b, functions):
+    """`for (const p of x.flatMap(fn))`: the pure helper `fn` is not modelled; it is executed (node) on every
+    representative and hostile element of `x` and tabulated: [(element, [what fn returns])]"""
+    wanted = {}
+    for st in b["steps"]:
+        if st[0] == "eachNorm":
+            f = b["fields"][st[2]]
+            for v in f["reps"] + f["hostile"]:
+                for e in v:
+                    wanted.setdefault(st[4], []).append(e)
+    if not wanted:
+        return []
+    if len(wanted) > 1:
+        raise WrapperError(f"{b['wrapper']}.{b['name']}: several different helpers in loops are not modelled")
+    (fn, elems), = wanted.items()
+    elems = sorted(set(elems))
+    import shutil
+    import subprocess
+    node = shutil.which("node")
+    if not node:
+        raise WrapperError(f"{b['wrapper']}.{b['name']}: node is needed to tabulate helper {fn}")
+    prog = functions[fn] + "\nprocess.stdout.write(JSON.stringify(" + json.dumps(elems) + f".map((e) => {fn}(e))));"
+    p = subprocess.run([node, "-e", prog], stdout=subprocess.PIPE, stderr=subprocess.PIPE, timeout=60)
+    if p.returncode != 0:
+        raise WrapperError(f"helper {fn} did not run under node: " + p.stderr.decode("utf-8", "replace")[-400:])
+    outs = json.loads(p.stdout.decode())
+    for o in outs:
+        if not (isinstance(o, list) and all(isinstance(x, str) for x in o)):
+            raise WrapperError(f"helper {fn} returned {o!r}")
+    return [[e, o] for e, o in zip(elems, outs)]
+
 
 SOURCES = {
     "mcp": ("renamify-mcp/src/renamify-service.ts", []),
@@ -773,12 +860,13 @@ def extract():
         # helpers: methods whose first parameter is the argument vector
         helpers = {n: (p, b) for n, (p, b) in methods.items() if re.match(r"\s*args\s*:\s*string\[\]", p)
                    and "args.push(" in b and "await" not in b}
-        raw[wrapper] = {"helpers": helpers, "builders": []}
+        functions = module_functions(src)
+        raw[wrapper] = {"helpers": helpers, "builders": [], "functions": functions}
         found = 0
         for name, (psrc, body) in methods.items():
             if name in helpers:
                 continue
-            b = extract_builder(wrapper, name, psrc, body, aliases, helpers)
+            b = extract_builder(wrapper, name, psrc, body, aliases, helpers, functions)
             if b is None:
                 continue
             active_false = set()          # boolean fields whose push fires on `false` (`=== false`, `!x`)
@@ -798,6 +886,7 @@ def extract():
                 f["reps"], f["hostile"] = reps_for(wrapper, f, hints)
                 if f["ty"][0] == "bool" and i in active_false:
                     f["reps"] = [False, True]     # representative 0 is always the value that pushes
+            b["norm"] = norm_table(b, functions)
             builders.append(b)
             raw[wrapper]["builders"].append((name, psrc, body, find_builder_start(body)[2]))
             found += 1
